@@ -504,6 +504,42 @@ func MustUse(c *core.Ctx, rule string, pkgs []*packages.Package, typeclass, pers
 			if why == "" {
 				return true
 			}
+			if strings.HasPrefix(why, "persistent") {
+				// explicit in-place mode: a constant true handed to a bool parameter (the trie's `mutable` flag)
+				inPlace := false
+				for _, a := range call.Args {
+					if atv, ok := info.Types[a]; ok && atv.Value != nil && atv.Value.Kind() == constant.Bool && constant.BoolVal(atv.Value) {
+						inPlace = true
+					}
+				}
+				// a method that assigns to its own receiver's fields is a mutator (builder), not a persistent update
+				if callee := calleeOf(info, call); callee != nil {
+					if fd := c.FuncDecl(callee); fd != nil && fd.Recv != nil && len(fd.Recv.List) == 1 && len(fd.Recv.List[0].Names) == 1 {
+						rname := fd.Recv.List[0].Names[0].Name
+						if nodeContains(fd.Body, true, func(x ast.Node) bool {
+							as, ok := x.(*ast.AssignStmt)
+							if !ok {
+								return false
+							}
+							for _, l := range as.Lhs {
+								if se, ok := ast.Unparen(l).(*ast.SelectorExpr); ok {
+									if id, ok := ast.Unparen(se.X).(*ast.Ident); ok && id.Name == rname {
+										return true
+									}
+								}
+							}
+							return false
+						}) {
+							inPlace = true
+						}
+					}
+				}
+				if inPlace {
+					k++
+					c.Add(rule, fb.Name+"/"+exprString(call.Fun)+"#"+itoa(k), call.Pos(), core.Skipped, "in-place mode (constant true mutable flag / builder mutator): "+exprString(call))
+					return true
+				}
+			}
 			k++
 			n++
 			c.Add(rule, fb.Name+"/"+exprString(call.Fun)+"#"+itoa(k), call.Pos(), core.Violated,
